@@ -99,6 +99,15 @@ Spell(t, ch) ==
       [] t = "link"   -> "[" \o ch \o "](/u)"
       [] t = "angle"  -> "[" \o ch \o "](<x y>)"
       [] t = "image"  -> "![" \o ch \o "](/i)"
+      (* the words of a link reference definition: [label words]: destination "title words" *)
+      [] t = "dopen"  -> "[" \o ch
+      [] t = "dclose" -> ch \o "]:"
+      [] t = "dboth"  -> "[" \o ch \o "]:"
+      [] t = "ddest"  -> "/u"
+      [] t = "dangle" -> "<x y>"
+      [] t = "topen"  -> "\"" \o ch
+      [] t = "tclose" -> ch \o "\""
+      [] t = "tboth"  -> "'" \o Rep(ch, 2) \o "'"
 
 Kinds == {"q", "b", "o", "w"}
 First(k) == CASE k = "q" -> "> " [] k = "b" -> "- " [] k = "o" -> "1. " [] k = "w" -> "-   "
@@ -112,6 +121,13 @@ SumW(p) == IF p = << >> THEN 0 ELSE Width(Head(p)) + SumW(Tail(p))
 
 Paths == UNION {[1..n -> Kinds] : n \in 0..MaxPath}
 DocItems == UNION {[1..n -> [t : Templates, hard : BOOLEAN]] : n \in 1..MaxItems}
+
+(* Mode = "defs": the document is one link reference definition (its label, destination and title are laid out by the same
+   filler: every space between these words is breakable, the space inside an angle-bracket destination is not) *)
+DefSeq(ts) == [i \in DOMAIN ts |-> [t |-> ts[i], hard |-> FALSE]]
+DefItems == {DefSeq(<<"dboth", "ddest">>), DefSeq(<<"dopen", "dclose", "ddest">>), DefSeq(<<"dboth", "ddest", "tboth">>),
+             DefSeq(<<"dopen", "dclose", "ddest", "topen", "tclose">>), DefSeq(<<"dopen", "dclose", "dangle", "topen", "tclose">>),
+             DefSeq(<<"dboth", "dangle", "topen", "plain3", "tclose">>), DefSeq(<<"dopen", "plain3", "dclose", "ddest", "tboth">>)}
 
 WordOf(its, i) == Spell(its[i].t, Letters[i])
 
@@ -130,7 +146,7 @@ Init ==
     THEN /\ items \in {s \in ItemSeqs : ~s[Len(s)].hard}
          /\ budget \in Budgets
          /\ pos = 1 /\ cur = << >> /\ lines = << >> /\ phase = "fill" /\ path = << >> /\ L = 0
-    ELSE /\ items \in {s \in DocItems : ~s[Len(s)].hard}
+    ELSE /\ items \in (IF Mode = "defs" THEN DefItems ELSE {s \in DocItems : ~s[Len(s)].hard})
          /\ path \in Paths
          /\ L = 0          \* the harness reflows every exported document for each L of its list
          /\ budget = 0 /\ pos = 1 /\ cur = << >> /\ lines = << >> /\ phase = "doc"
@@ -145,7 +161,7 @@ FillerCorrect == (Mode = "filler" /\ phase = "done") =>
 ExportFiller == (Mode = "filler" /\ phase = "done") =>
     PrintT(ToJson([items |-> items, budget |-> budget, lines |-> lines]))
 
-ExportDoc == (Mode = "docs") =>
+ExportDoc == (Mode \in {"docs", "defs"}) =>
     PrintT(ToJson([src |-> Source(items, path, 1, TRUE), words |-> [i \in DOMAIN items |-> WordOf(items, i)],
                    hard |-> [i \in DOMAIN items |-> IF items[i].hard THEN "yes" ELSE "no"],
                    W |-> SumW(path), path |-> path]))
